@@ -87,6 +87,15 @@ int n(int k) { return k; }
             if n <= 300:
                 src3 = ('empty @is_you() {\n    byte[] lm = [%s];\n    write(lm); write(\'|\'); lm[1] = 67; writeln(lm); write(lm.length);\n}\n' % elems)
                 jobs.append(('longlocal_w%d_n%d' % (w, n), src3, [], w, 400 + 2 * n, False, 900000))
+    # write(bool) of a conversion the typechecker cannot fold: the argument slot is one byte, the value a word (or a length)
+    for w in ((2, 3) if ctx.quick else (2, 3, 4)):
+        H = 1 << (8 * w - 1)
+        for v in (0, 1, 255, 256, 257, 512, 4096, -256, -1, H - 1, -H, 0x7F00):
+            jobs.append(('wb_w%d_%d' % (w, v), 'empty @is_you(int x) { write(x is bool); write(\' \'); writeln(x is bool); write((x is byte) is bool); write(not (x is bool)); }',
+                         [str(v)], w, 64, False, 100000))
+    for n in (0, 1, 255, 256, 257, 512):
+        src = ('byte gbuf[%d];\nempty @is_you(string s) { byte dyn[%d]; write(gbuf is bool); write(dyn is bool); write(s is bool); write(s.length is bool); writeln(dyn.length is bool); }' % (n, n))
+        jobs.append(('wbl_%d' % n, src, ['x' * n], 2, 400 + n, False, 300000))
     tally, bad, res = suites.differential(ctx, jobs, None, label='write-family', must_compile=True)
     # python's own decimal notation as a second oracle for the 16-bit sweep
     mism = 0
